@@ -3,6 +3,7 @@
    All statements quantify over EVERY reachable state of the life-cycle LTS Srv/Conc.v: any number of requests,
    any interleaving of the receive, worker, responder and send steps, any behaviour of the implementation. *)
 From Coq Require Import NArith List Bool PeanoNat.
+From V9 Require Srv.Buf Srv.BufProofs.
 From V9 Require Import Lib.GoSem Gen.Consts Srv.Conc Srv.ConcProofs.
 Import ListNotations.
 
@@ -40,3 +41,41 @@ Example C03_nonvacuous :
     [LArrive 5 KOp; LWStart 0; LOpCall 0; LAnswer 0 77; LAnswer 0 78; LR 0; LR 1; LR 0; LR 0; LSend; LR 0; LR 0; LR 0; LOpReturn 0; LWTail 0]%N = Some s /\
   length (wire s) = 1 /\ map f_pc (F s) = [RDone; RDone].
 Proof. eexists. vm_compute. repeat split. Qed.
+
+
+(* ---- reply buffers recycled between requests (Srv/Buf.v: recv takes req.Rc from the pool or
+   allocates it, RespondR* test-and-pack, Respond queues, send writes and recycles; any number of
+   requests, any number of answers per request from any goroutine, any interleaving) ---- *)
+
+(* every Write for request r hands the transport bytes that were packed for r *)
+Theorem C03_wire_bytes_belong_to_request : forall s r c,
+  Buf.reach Buf.fixed_cfg s -> In (r, c) (Buf.wire s) -> exists v, c = Some (r, v).
+Proof. exact BufProofs.wire_bytes_belong_to_request. Qed.
+Print Assumptions C03_wire_bytes_belong_to_request.
+
+(* a buffer in use by a request is that request's own and holds nothing or bytes packed for it *)
+Theorem C03_buffer_exclusive : forall s i b r,
+  Buf.reach Buf.fixed_cfg s -> nth_error (Buf.bufs s) i = Some b ->
+  (Buf.b_state b = Buf.BHeld r \/ Buf.b_state b = Buf.BQueued r \/ Buf.b_state b = Buf.BSending r) ->
+  Buf.alook (Buf.rc s) r = Some i /\ (Buf.b_content b = None \/ exists v, Buf.b_content b = Some (r, v)).
+Proof. exact BufProofs.buffer_exclusive. Qed.
+Print Assumptions C03_buffer_exclusive.
+
+(* the recycling pool holds free buffers only, each at most once *)
+Theorem C03_pool_is_free : forall s i,
+  Buf.reach Buf.fixed_cfg s -> In i (Buf.pool s) -> exists b, nth_error (Buf.bufs s) i = Some b /\ Buf.b_state b = Buf.BFree.
+Proof. exact BufProofs.pool_is_free. Qed.
+Print Assumptions C03_pool_is_free.
+
+(* with the already-answered test and the pack as two steps (the code before the repair) a delayed
+   second answer writes into a buffer that meanwhile belongs to another request; recycling before
+   the Write (seeded change C03a) is refuted as well *)
+Theorem C03_separate_test_and_pack_refuted : exists ls s r r' v,
+  Buf.run Buf.current_cfg Buf.init ls = Some s /\ In (r, Some (r', v)) (Buf.wire s) /\ r <> r'.
+Proof. exact BufProofs.separate_test_and_pack_refuted. Qed.
+Print Assumptions C03_separate_test_and_pack_refuted.
+
+Theorem C03_early_recycle_refuted : exists ls s r r' v,
+  Buf.run Buf.early_recycle_cfg Buf.init ls = Some s /\ In (r, Some (r', v)) (Buf.wire s) /\ r <> r'.
+Proof. exact BufProofs.early_recycle_refuted. Qed.
+Print Assumptions C03_early_recycle_refuted.
